@@ -319,7 +319,8 @@ _poll_add_(struct qb_loop *l,
 		*pe_pt = pe;
 		return 0;
 	} else {
-		pe->state = QB_POLL_ENTRY_EMPTY;
+		/* forget fd and check too, or this slot shadows the live entry of fd */
+		_poll_entry_empty_(pe);
 		return res;
 	}
 }
